@@ -245,16 +245,14 @@ impl ZoSortedStrVec {
         // select1(index) returns the position of the (index+1)th set bit (0-indexed)
         let start_pos = self.rank_select.select1(index).ok()? as usize;
 
-        // Check if this is an empty string (starts with null terminator)
-        if self.data[start_pos] == 0 {
-            return Some("");
-        }
-
-        // Find the end position (next null terminator)
-        let end_pos = self.data[start_pos..]
-            .iter()
-            .position(|&b| b == 0)
-            .map(|pos| start_pos + pos)?;
+        // The terminator of string `index` is the byte just before the start of
+        // string `index + 1` (or the last byte of `data`). Use the boundary index
+        // rather than scanning for a 0 byte: strings may themselves contain '\0'.
+        let end_pos = if index + 1 < self.len {
+            (self.rank_select.select1(index + 1).ok()? as usize).checked_sub(1)?
+        } else {
+            self.data.len().checked_sub(1)?
+        };
 
         // Convert bytes to string slice
         std::str::from_utf8(&self.data[start_pos..end_pos]).ok()
